@@ -479,7 +479,7 @@ func TestVerif_C29_Transactions(t *testing.T) {
 	defer r.Finish()
 	r.SetRule("PRNG transactions: 1..300 inputs and 0..300 outputs weighted to 252/253/254 (+ 65535/65536 once each), scripts 0..600 B weighted to 252/253/254, per-input witness stacks of 0..5 (rarely 252..255) items, nested-SegWit inputs with both scripts, negative versions/values, nil vs empty slices; each checked against a hand-written BIP-144 encoder, round trip in both formats, part concatenation, txid independence of witness. Second pass: transactions obtained by deserialising bit-flipped serializations (whatever btcd accepts) are put through the same checks. non-trivial = a witness is present or an input/output/stack/script length is >= 253")
 	r.Assume("nil and empty byte slices / witness stacks are the same value (the wire format cannot distinguish them)")
-	n := r.N(3000, 150000)
+	n := r.N(3000, 120000)
 	huge := 4
 	var mutOK, mutErr, mutPanic, mutChecked int64
 	verifkit.Parallel(n+huge, 0, func(i int) {
